@@ -57,8 +57,13 @@ Rule3(rc) == [name |-> r3name, uid |-> Uid(3), ls |-> RuleLs,
 TwoTargets == {[rules |-> <<Rule1(<<CPrint(rc, "min")>>), Rule3(<<CPrint(rc, "min")>>)>>,
                 filters |-> <<MkFilter(1, fc, Ls(cat1, <<>>, <<>>), "any")>>, pipe |-> TRUE] :
                  rc \in {CId(n_sel), CSel("all", S_them)}, fc \in FilterConds}
+\* a rule whose NAME reads as a UUID (32 hexadecimal digits), named by the filter by that name
+hexn == <<100, 101, 97, 100, 98, 101, 101, 102, 100, 101, 97, 100, 98, 101, 101, 102, 100, 101, 97, 100, 98, 101, 101, 102, 100, 101, 97, 100, 98, 101, 101, 102>>
+HexName == {[rules |-> <<[Rule1(<<CPrint(rc, "min")>>) EXCEPT !.name = hexn], Rule2>>,
+             filters |-> <<[MkFilter(1, fc, Ls(cat1, <<>>, <<>>), "name") EXCEPT !.rules = <<hexn>>]>>] :
+              rc \in {CId(n_sel), CSel("1", S_them)}, fc \in FilterConds}
 NoPipe(S) == {c @@ [pipe |-> FALSE] : c \in S}
-ASSUME LET S == SetToSeq(TwoTargets \cup NoPipe(Single \cup TwoConds \cup Underscore \cup (IF Quick THEN RandomSubset(150, Stacked) ELSE Stacked)))
+ASSUME LET S == SetToSeq(TwoTargets \cup NoPipe(Single \cup TwoConds \cup HexName \cup Underscore \cup (IF Quick THEN RandomSubset(150, Stacked) ELSE Stacked)))
        IN  ndJsonSerialize(IOEnv.VERIF_OUT, [i \in 1..Len(S) |-> [id |-> i] @@ S[i]])
 Init == x = 0
 Next == UNCHANGED x
